@@ -7,10 +7,11 @@ import json, os, re, shutil, subprocess, sys, time
 D = os.path.realpath(sys.argv[1]); ID = os.path.basename(D)
 meta = json.load(open(os.path.join(D, "meta.json")))
 props = sys.argv[2:] or [meta["property"]]
-WT = "/tmp/sr_repo"; ALT = "/tmp/verif_alt"
+SLOT = os.environ.get("SR_SLOT", "")          # parallel slots: separate scratch worktree / copy / lock each
+WT = "/tmp/sr_repo" + SLOT; ALT = "/tmp/verif_alt" + SLOT
 # one run at a time (the scratch worktree and the scratch copy of /verif are shared so that their build caches are reused)
 import fcntl
-_lock = open("/tmp/seeded_run.lock", "w"); fcntl.flock(_lock, fcntl.LOCK_EX)
+_lock = open("/tmp/seeded_run%s.lock" % SLOT, "w"); fcntl.flock(_lock, fcntl.LOCK_EX)
 def sh(cmd, **kw):
     return subprocess.run(cmd, shell=True, stdout=subprocess.PIPE, stderr=subprocess.STDOUT, text=True, **kw)
 sh("git -C /repo worktree remove --force %s; rm -rf %s" % (WT, WT))
@@ -20,7 +21,7 @@ if r.returncode != 0:
     print("patch does not apply:", r.stdout); sys.exit(3)
 os.makedirs(ALT, exist_ok=True)
 # committed state of /verif only (others may be mid-edit in the working tree); keep ALT's build products
-EXP = "/tmp/verif_export"
+EXP = "/tmp/verif_export" + SLOT
 sh("rm -rf %s; mkdir -p %s; git -C /verif archive HEAD | tar -x -C %s" % (EXP, EXP, EXP))
 sh("rsync -rc --delete --exclude .cache --exclude replay --exclude '*.vo' --exclude '*.vos' --exclude '*.vok' --exclude '*.glob' --exclude '*.aux' "
    "--exclude 'coq/Makefile*' --exclude 'coq/.Makefile.d' --exclude 'coq/.mk.sha' --exclude 'coq/Gen' --exclude 'coq/.lia.cache' --exclude Cargo.lock %s/ %s/" % (EXP, ALT))
